@@ -150,7 +150,9 @@ def vn_corr(ctx, r, n):
 
 
 # ---------------------------------------------------------------- oracle on connection pairs
-def judge_pair(ctx, res, desc, common=True, expect_fail=False, bad_cert=None, predicted=None, rerun=None):
+def judge_pair(ctx, res, desc, common=True, expect_fail=False, bad_cert=None, predicted=None, rerun=None, allowed=None):
+    """`allowed` = {field: values both configurations permit}: whatever an endpoint that completed
+    reports must be one of them"""
     c, s = res.client, res.server
     if rerun is not None:     # everything needed to run this pair again (checks.c03.replay)
         rerun = dict(rerun, judge={"common": common, "expect_fail": expect_fail, "bad_cert": bad_cert, "predicted": predicted})
@@ -163,6 +165,13 @@ def judge_pair(ctx, res, desc, common=True, expect_fail=False, bad_cert=None, pr
                 replay = dict(replay, kind="pair", rerun=rerun)
             _w(what, replay, signature)
     ctx = _Ctx
+    if allowed:
+        for side, info in (("client", c), ("server", s)):
+            for k, ok in allowed.items():
+                if info["completed"] and ok is not None and info[k] not in ok:
+                    ctx.witness(f"{desc}: the {side} completed with {k}={info[k]!r}, which is not allowed by both "
+                                f"configurations (allowed: {sorted(ok, key=str)})", {"scenario": desc, "field": k, "value": info[k]},
+                                {"oracle": "negotiated-value-not-configured", "field": k, "side": side})
     for side, info in (("client", c), ("server", s)):
         if info["raised"]:
             ctx.witness(f"{desc}: {side} API raised {info['raised']}", {"scenario": desc}, {"oracle": "pair-raise", "side": side})
@@ -185,9 +194,11 @@ def judge_pair(ctx, res, desc, common=True, expect_fail=False, bad_cert=None, pr
             if lab not in c["secrets"] or lab not in s["secrets"]:
                 diffs.append(f"secret {lab} missing from a key log")
         for lab in set(c["secrets"]) & set(s["secrets"]):
-            if c["secrets"][lab] != s["secrets"][lab]:
+            # (a client that restarted after Version Negotiation logged the secrets of both attempts:
+            # the connection that completed is the last one)
+            if c["secrets"][lab][-1] != s["secrets"][lab][-1]:
                 diffs.append(f"secret {lab} differs")
-        if c["event"] and c["event"][2] and c["secrets"].get("CLIENT_EARLY_TRAFFIC_SECRET") != s["secrets"].get("CLIENT_EARLY_TRAFFIC_SECRET"):
+        if c["event"] and c["event"][2] and c["secrets"].get("CLIENT_EARLY_TRAFFIC_SECRET", [None])[-1] != s["secrets"].get("CLIENT_EARLY_TRAFFIC_SECRET", [None])[-1]:
             diffs.append("early data accepted but early traffic secrets differ")
         if diffs:
             ctx.witness(f"{desc}: both endpoints completed but disagree — " + "; ".join(diffs),
@@ -238,6 +249,79 @@ def cert_kwargs(Q, D, kind, spec):
 
 def first_common(pref, other):
     return next((x for x in pref if other is not None and x in other), None)
+
+
+def resumption_lattice(ctx, r, thorough, seed):
+    """the option lattice in the RESUMPTION dimension: a ticket obtained under one configuration is
+    presented under another (every pair of cipher-suite lists incl. disjoint ones; ALPN and version
+    pairs), the server's ticket store knows it / forgot it / does not exist, 0-RTT offered or not.
+    Oracle: completion => every negotiated value is allowed by BOTH configurations of the second
+    connection, both sides agree (also on session_resumed); no completion when they share nothing."""
+    import dataclasses
+    from aioquic import tls
+    from harness import quicpair as Q, tlsscen as S
+    CS = tls.CipherSuite
+    A, B, C = CS.AES_128_GCM_SHA256, CS.AES_256_GCM_SHA384, CS.CHACHA20_POLY1305_SHA256
+    default = [B, A, C]
+    lists = [None, [A], [C], [B, C], [C, A]]
+    n = 0
+    for first in (None, [A], [C]):                # configuration of the connection that earns the ticket
+        seed += 1
+        seed1 = seed
+        store = S.TicketStore()
+        o1 = {} if first is None else {"cipher_suites": first}
+        r1 = Q.run(seed, dict(o1), dict(o1), tickets=store)
+        if not (r1.client["completed"] and r1.tickets):
+            ctx.witness(f"no session ticket from a first connection with cipher suites {first}", {}, {"oracle": "no-ticket"})
+            continue
+        ticket = r1.tickets[0]
+        k = 0
+        for cc in lists:
+            for sc in lists:
+                inter = [x for x in (sc or default) if x in (cc or default)]
+                stores = ["knows", "forgot", "none"] if (thorough or not inter) else [["knows", "forgot", "none"][k % 3]]
+                k += 1
+                for st in stores:
+                    for zero_rtt in ([True, False] if thorough else [k % 2 == 0]):
+                        seed += 1
+                        co = {} if cc is None else {"cipher_suites": cc}
+                        so = {} if sc is None else {"cipher_suites": sc}
+                        tk = ticket if zero_rtt else dataclasses.replace(ticket, max_early_data_size=None)
+                        tickets = store if st == "knows" else (S.TicketStore() if st == "forgot" else None)
+                        res = Q.run(seed, co, so, tickets=tickets, offer_ticket=tk)
+                        desc = (f"resumption lattice: ticket from cipher suites {first} (suite {int(ticket.cipher_suite)}) offered "
+                                f"with client={cc} server={sc}, server ticket store {st}, 0-RTT {'on' if zero_rtt else 'off'}")
+                        judge_pair(ctx, res, desc, common=bool(inter), expect_fail=not inter,
+                                   predicted={"cipher_suite": int(inter[0])} if inter else None,
+                                   allowed={"cipher_suite": {int(x) for x in inter}},
+                                   rerun={"seed": seed, "client_options": co, "server_options": so,
+                                          "resume": {"first": first, "seed1": seed1, "store": st, "zero_rtt": zero_rtt},
+                                          "allowed": {"cipher_suite": sorted(int(x) for x in inter)}})
+                        if res.client["completed"] and res.server["completed"] and inter:
+                            want = st == "knows" and int(inter[0]) == int(ticket.cipher_suite)
+                            if res.client["resumed"] != want:
+                                ctx.witness(f"{desc}: session_resumed={res.client['resumed']}, expected {want}",
+                                            {"scenario": desc, "expected_resumed": want}, {"oracle": "resumption", "store": st})
+                        n += 1
+                        ctx.count(("resume-lattice", str(first), str(cc), str(sc), st, zero_rtt), bool(inter))
+        # ALPN and QUIC versions of the second connection
+        for ca, sa in [(None, None), (["h3"], ["h3"]), (["hq-interop"], ["h3"]), (None, ["h3"]), (["h3"], None)]:
+            seed += 1
+            co = {} if ca is None else {"alpn_protocols": ca}
+            so = {} if sa is None else {"alpn_protocols": sa}
+            fail = sa is not None and first_common(sa, ca) is None
+            res = Q.run(seed, co, so, tickets=store, offer_ticket=ticket)
+            judge_pair(ctx, res, f"resumption lattice: ticket offered with ALPN client={ca} server={sa}", common=not fail,
+                       expect_fail=fail, allowed=None if sa is None else {"alpn": set(sa) & set(ca or [])})
+            n += 1
+        for cv, sv in [([Q.V1], [Q.V1]), ([Q.V2], [Q.V1]), ([Q.V2, Q.V1], [Q.V1]), ([Q.V2], [Q.V2])]:
+            seed += 1
+            res = Q.run(seed, {"supported_versions": cv}, {"supported_versions": sv}, tickets=store, offer_ticket=ticket)
+            both = set(cv) & set(sv)
+            judge_pair(ctx, res, f"resumption lattice: ticket offered with versions client={cv} server={sv}", common=bool(both),
+                       expect_fail=not both, allowed={"version": both})
+            n += 1
+    ctx.notes["resumption_lattice"] = n
 
 
 def option_lattice(ctx, r, thorough):
@@ -322,6 +406,7 @@ def option_lattice(ctx, r, thorough):
             ctx.witness(f"{variant}: session_resumed={r2.client['resumed']}, expected {expect_resumed}", {"variant": variant},
                         {"oracle": "resumption", "variant": variant})
         ctx.count(("resume", variant), True)
+    resumption_lattice(ctx, r, thorough, seed + 5000)
     # --- random combinations under loss / reordering
     n = 120 if thorough else 14
     for i in range(n):
@@ -800,10 +885,20 @@ def replay(path):
             if "cipher_suites" in o:
                 o["cipher_suites"] = [tls.CipherSuite(x) for x in o["cipher_suites"]]
         kw = cert_kwargs(Q, D, rr["cert"]["kind"], rr["cert"]) if rr.get("cert") else {}
+        if rr.get("resume"):      # first earn the ticket under the recorded configuration
+            import dataclasses
+            rs = rr["resume"]
+            store = S.TicketStore()
+            o1 = {} if rs["first"] is None else {"cipher_suites": [tls.CipherSuite(x) for x in rs["first"]]}
+            r1 = Q.run(rs["seed1"], dict(o1), dict(o1), tickets=store)
+            tk = r1.tickets[0] if rs["zero_rtt"] else dataclasses.replace(r1.tickets[0], max_early_data_size=None)
+            kw.update(offer_ticket=tk, tickets=store if rs["store"] == "knows" else
+                      (S.TicketStore() if rs["store"] == "forgot" else None))
         res = Q.run(rr["seed"], co, so, **kw)
         j = rr["judge"]
+        allowed = {k: set(v) for k, v in rr.get("allowed", {}).items()} or None
         judge_pair(ctx, res, rep.get("scenario", "replay"), common=j["common"], expect_fail=j["expect_fail"],
-                   bad_cert=j["bad_cert"], predicted=j["predicted"])
+                   bad_cert=j["bad_cert"], predicted=j["predicted"], allowed=allowed)
         ws = ctx.witnesses
     else:
         print("this witness is not re-executable on its own; re-run ./check C03 with VERIF_SEED set to the seed in the file name")
